@@ -373,6 +373,9 @@ func join(a, b context, node parse.Node, nodeName string) context {
 	// A name is open, or was split, after the branch node if it is in any branch.
 	a.nameOpen = a.nameOpen || b.nameOpen
 	a.tagNameOpen = a.tagNameOpen || b.tagNameOpen
+	if a.endTagOpen != b.endTagOpen {
+		a.endTagOpen = "?"
+	}
 	a.element.split = a.element.split || b.element.split
 	a.element.attrSplit = a.element.attrSplit || b.element.attrSplit
 	a.attr.split = a.attr.split || b.attr.split
@@ -910,6 +913,9 @@ func mangle(c context, templateName string) string {
 		// (In an enumerated value static text after an action is refused.)
 		s += "_afterAction"
 	}
+	if c.endTagOpen != "" {
+		s += "_endTagOpen(" + c.endTagOpen + ")"
+	}
 	if c.nameOpen {
 		s += "_nameOpen"
 	}
@@ -1313,6 +1319,11 @@ func (e *escaper) escapeText(c context, n *parse.TextNode) context {
 		// (A text node emptied by an earlier rewrite, e.g. one that held only a comment.)
 		return c
 	}
+	if c.endTagOpen != "" && c.state == stateSpecialElementBody {
+		if err := splitEndTag(c, s); err != nil {
+			return context{state: stateError, err: errorf(ErrBadHTML, n, 0, "%s", err)}
+		}
+	}
 	if c.nameOpen && continuesName(c.state, s[0]) {
 		// The text before the preceding template node ended inside a name, as in
 		// `<s{{if .C}}cript{{end}}>` or `<a title{{if .C}} {{end}}href="x">`: a browser may see
@@ -1404,10 +1415,47 @@ func (e *escaper) escapeText(c context, n *parse.TextNode) context {
 		}
 		e.editTextNode(n, b.Bytes())
 	}
+	c.endTagOpen = openEndTag(c, s)
 	// In stateTag the text ends with a letter or digit only directly after the tag name.
 	c.tagNameOpen = c.state == stateTag && asciiAlphaNum(s[len(s)-1])
 	c.nameOpen = c.state == stateAttrName || c.tagNameOpen
 	return c
+}
+
+// openEndTag returns the end of the text s, in lower case, if c is the body of a script or
+// style element and that end is the beginning of the element's end tag, and "" otherwise.
+// (In the body of a title or textarea element "<" is rewritten, so that a browser does
+// not see an end tag there either.)
+func openEndTag(c context, s []byte) string {
+	if c.state != stateSpecialElementBody || c.element.name != "script" && c.element.name != "style" {
+		return ""
+	}
+	full := "</" + c.element.name
+	for k := len(full); k > 0; k-- {
+		if k <= len(s) && asciiLower(s[len(s)-k:]) == full[:k] {
+			return full[:k]
+		}
+	}
+	return ""
+}
+
+// splitEndTag returns an error if the text s, which follows a template node in the body of
+// a script or style element, completes the end tag that the text in front of the node began.
+func splitEndTag(c context, s []byte) error {
+	full := "</" + c.element.name
+	begun := []string{c.endTagOpen}
+	if c.endTagOpen == "?" {
+		begun = begun[:0]
+		for k := 1; k <= len(full); k++ {
+			begun = append(begun, full[:k])
+		}
+	}
+	for _, b := range begun {
+		if indexTagEnd(append([]byte(b), s...), []byte(c.element.name)) == 0 {
+			return fmt.Errorf("the end tag of the %s element is split by a template node: %q + %.16q", c.element.name, b, s)
+		}
+	}
+	return nil
 }
 
 // continuesName reports whether the byte b, found in the given state directly after
